@@ -8,6 +8,7 @@ import EvalexprVerif.Spec.Ast
 import EvalexprVerif.Spec.AstLoose
 import EvalexprVerif.Spec.Seq
 import EvalexprVerif.Spec.Lex
+import EvalexprVerif.Spec.LexExt
 import EvalexprVerif.Spec.WellFormed
 import Driver.Codec
 
@@ -34,7 +35,7 @@ def binOps : Array BinOp :=
 def assignOps : Array AssignOp := #[.assign, .add, .sub, .mul, .div, .mod, .exp, .and, .or]
 def idents : Array Str := #[cl!"a", cl!"b", cl!"x", cl!"f", cl!"g", cl!"foo_1", cl!"e", cl!"ä"]
 def lits : Array Lit :=
-  #[.int 0, .int 1, .int 2, .int 42, .int 9223372036854775807, .float (Float.ofBits 0x3ff8000000000000),
+  #[.int 0, .int 1, .int 2, .int 42, .int 30, .int 254, .int 9223372036854775807, .float (Float.ofBits 0x3ff8000000000000),
     .float (Float.ofBits 0x3f50624dd2f1a9fc), .float (Float.ofBits 0x7e37e43c8800759c), .float (Float.ofBits 0),
     .boolean true, .boolean false, .string [], .string cl!"s", .string cl!"a \"b\" \\ /* x */ // y", .string ['\n', 'ä']]
 
@@ -55,10 +56,39 @@ def tokText (t : Token) : Str :=
 
 def ptok (t : Token) : PTok := ⟨t, tokText t⟩
 
+/-- other spellings of the literals of the pools: floats in scientific notation with a signed exponent
+(three partial tokens for the lexer); integers are also written in hexadecimal, either case -/
+def altFloatTexts : Array Str :=
+  #[cl!"15e-1", cl!"1.5e+0", cl!"1.5E-0", cl!".15e+1", cl!"1e-3", cl!"1E-3", cl!".1e-2", cl!"0.001e+0", cl!"1e+4", cl!"100.e+2",
+    cl!"1e+300", cl!"0e+0", cl!"0.e-5", cl!"5e-3", cl!"2e-3", cl!"1e+2"]
+def altFloats : Array (UInt64 × Str) := altFloatTexts.filterMap fun t => (F64.parseBits t).map (·, t)
+
+def hexText (n : Nat) (upper : Bool) : Str :=
+  '0' :: 'x' :: (Nat.toDigits 16 n).map (fun c => if upper then c.toUpper else c)
+
+/-- the token in a randomly chosen spelling -/
+def ptokVar (t : Token) (r : Rng) : PTok × Rng :=
+  let (k, r) := r.below 3
+  if k != 0 then (ptok t, r) else
+  match t with
+  | .int i =>
+    if i.toInt ≥ 0 then let (u, r) := r.below 2; (⟨t, hexText i.toInt.toNat (u == 1)⟩, r) else (ptok t, r)
+  | .float f =>
+    let alts := altFloats.filter (·.1 == f.toBits)
+    if alts.isEmpty then (ptok t, r) else let (a, r) := pick alts r; (⟨t, a.2⟩, r)
+  | _ => (ptok t, r)
+
 def sepPool : Array Sep :=
-  #[.ws ' ', .ws ' ', .ws ' ', .ws '\n', .ws '\t', .ws (Char.ofNat 0xA0), .ws (Char.ofNat 0x2003),
-    .ws (Char.ofNat 0x3000), .ws (Char.ofNat 0x85), .block [], .block cl!" x ", .block ['*'], .block ['/'],
-    .block cl!"/* \" ", .line [], .line cl!" x", .line cl!"*/ \" /*", .ws '\r', .ws (Char.ofNat 0x2028)]
+  #[.ws ' ', .ws ' ', .ws ' ', .ws '\n', .ws '\t', .ws '\r',
+    -- every White_Space code point
+    .ws (Char.ofNat 0x0B), .ws (Char.ofNat 0x0C), .ws (Char.ofNat 0x85), .ws (Char.ofNat 0xA0), .ws (Char.ofNat 0x1680),
+    .ws (Char.ofNat 0x2000), .ws (Char.ofNat 0x2001), .ws (Char.ofNat 0x2002), .ws (Char.ofNat 0x2003), .ws (Char.ofNat 0x2004),
+    .ws (Char.ofNat 0x2005), .ws (Char.ofNat 0x2006), .ws (Char.ofNat 0x2007), .ws (Char.ofNat 0x2008), .ws (Char.ofNat 0x2009),
+    .ws (Char.ofNat 0x200A), .ws (Char.ofNat 0x2028), .ws (Char.ofNat 0x2029), .ws (Char.ofNat 0x202F), .ws (Char.ofNat 0x205F),
+    .ws (Char.ofNat 0x3000),
+    -- comments: empty, ASCII, stars and slashes, quotes, and non-ASCII bodies (bytes ≠ characters)
+    .block [], .block cl!" x ", .block ['*'], .block ['/'], .block cl!"/* \" ", .block cl!"é€ 😀", .block [Char.ofNat 0x2028, '*'],
+    .line [], .line cl!" x", .line cl!"*/ \" /*", .line cl!" größer €", .line [Char.ofNat 0xA0, '😀']]
 
 def genGap (r : Rng) : Gap × Rng :=
   let (k, r) := r.below 8
@@ -83,18 +113,34 @@ def admissibleB : List (Gap × PTok) → Gap → Bool
       ((renderFrom rest g).head? != some '/' && (renderFrom rest g).head? != some '*')) &&
     admissibleB rest g
 
+/-- Bool mirror of `Spec.AdmissibleX` -/
+def admissibleXB : List (Gap × PTok) → Gap → Bool
+  | [], g => validB g
+  | (g0, p) :: rest, g =>
+    validB g0 &&
+    (match rest with
+      | (g1, q) :: rest' =>
+        (!(fuses p.tok q.tok) || !g1.isEmpty) &&
+        (!(looksLikeMantissaE p.text && isIdentTok p.tok && isSign q.tok && !rest'.isEmpty) ||
+          (!g1.isEmpty || !(nextGap rest' g).isEmpty))
+      | [] => true) &&
+    (!(isSlash p.tok) ||
+      ((renderFrom rest g).head? != some '/' && (renderFrom rest g).head? != some '*')) &&
+    admissibleXB rest g
+
 def genGaps : List Token → Rng → List (Gap × PTok) × Rng
   | [], r => ([], r)
   | t :: ts, r =>
     let (g, r) := genGap r
+    let (p, r) := ptokVar t r
     let (rest, r) := genGaps ts r
-    ((g, ptok t) :: rest, r)
+    ((g, p) :: rest, r)
 
 /-- a random admissible rendering of a token sequence (falls back to single spaces) -/
 def renderTokens (ts : List Token) (r : Rng) : Str × Rng :=
   let (ps, r) := genGaps ts r
   let (g, r) := genGap r
-  if admissibleB ps g then (renderFrom ps g, r)
+  if admissibleXB ps g then (renderFrom ps g, r)
   else (renderFrom (ts.map fun t => ([Sep.ws ' '], ptok t)) [], r)
 
 partial def genExpr (r : Rng) (depth : Nat) : Expr × Rng :=
@@ -143,6 +189,28 @@ def sysExpr (i : Nat) : Expr :=
       if gside == 0 then mkKind c (mkKind g leafA leafB) leafC else mkKind c leafC (mkKind g leafA leafB)
   if side == 0 then mkKind p child leafC else mkKind p leafC child
 
+/-- literals in the spellings the lexer has to work for, written WITHOUT blanks around a binary
+operator (`0x1e-3`, `5e-3-2e-3`, `a-1e+2`): atom (as AST and as written) × operator × atom; the
+rendering is tight where `AdmissibleX` allows it, with blanks otherwise -/
+def tightAtoms : Array (Expr × Str) :=
+  #[(.lit (.int 30), cl!"0x1e"), (.lit (.int 254), cl!"0xFE"), (.lit (.int 14), cl!"0xe"), (.lit (.int 3), cl!"3"),
+    (.var cl!"a", cl!"a"), (.var cl!"e", cl!"e"), (.var cl!"x1e", cl!"x1e")] ++
+  (#[cl!"5e-3", cl!"2e-3", cl!"1e+2", cl!".5e+1", cl!"1e5", cl!"2.5"].filterMap fun t =>
+    (F64.parse t).map fun f => (Expr.lit (.float f), t))
+
+def tightCase (i : Nat) : Str × Expr :=
+  let n := tightAtoms.size
+  let (l, lt) := tightAtoms[i % n]!
+  let (r, rt) := tightAtoms[(i / n) % n]!
+  let op := binOps[(i / (n * n)) % binOps.size]!
+  let e := Expr.bin op l r
+  match render e with
+  | [a, o, b] =>
+    let tight : List (Gap × PTok) := [([], ⟨a, lt⟩), ([], ptok o), ([], ⟨b, rt⟩)]
+    let spaced : List (Gap × PTok) := [([], ⟨a, lt⟩), ([Sep.ws ' '], ptok o), ([Sep.ws ' '], ⟨b, rt⟩)]
+    (if admissibleXB tight [] then renderFrom tight [] else renderFrom spaced [], e)
+  | ts => (renderFrom (ts.map fun t => ([Sep.ws ' '], ptok t)) [], e)
+
 partial def genOperand (r : Rng) (d : Nat) : Operand × Rng :=
   let (k, r) := r.below 10
   if d == 0 || k < 6 then let (e, r) := genExpr r 2; (.expr e, r)
@@ -175,7 +243,8 @@ def tokenPool : Array Token :=
     .lBrace, .rBrace, .assign, .plusAssign, .minusAssign, .starAssign, .slashAssign, .percentAssign,
     .hatAssign, .andAssign, .orAssign, .comma, .semicolon,
     .identifier cl!"a", .identifier cl!"x1", .identifier cl!"1e", .identifier cl!"2E", .identifier cl!"e5",
-    .identifier cl!"inf", .identifier cl!"ä", .int 1, .int 0, .int 1234567890123,
+    .identifier cl!"inf", .identifier cl!"ä", .int 1, .int 0, .int 1234567890123, .int 30, .int 254,
+    .float (Float.ofBits 0x3f50624dd2f1a9fc), .float (Float.ofBits 0),
     .float (Float.ofBits 0x3ff8000000000000), .float (Float.ofBits 0x40c3880000000000), .boolean true, .boolean false,
     .string [], .string cl!"a b", .string cl!"/* \" \\"]
 
